@@ -135,7 +135,12 @@ class Report:
             "wall_s": round(wall, 2),
             "violations": nviol,
         }
-        (EVIDENCE / f"{self.prop}.json").write_text(json.dumps(ev, indent=1, default=str))
+        evdir = EVIDENCE
+        if os.environ.get("VERIF_REPO", "/repo").rstrip("/") != "/repo":
+            # a run against a scratch copy (seeded-change evaluation) must not overwrite the evidence of /repo
+            evdir = VERIF / "work" / "evidence-scratch"
+            evdir.mkdir(parents=True, exist_ok=True)
+        (evdir / f"{self.prop}.json").write_text(json.dumps(ev, indent=1, default=str))
         for l in lines:
             print(l)
         print(f"{self.prop} {self.tier}: states={self.states} transitions={self.transitions} "
